@@ -9,7 +9,7 @@ RULE = ("generated DCOPs restricted to what the YAML format expresses: domains o
         "values, and the 1-value case), variables with/without initial value (incl. 0), extensional constraints of "
         "arity 1-3 (int/float/negative values) and intentional constraints (arithmetic expressions), 0-4 agents with "
         "capacity, one global default route, symmetric route table, default and per-computation hosting costs; "
-        "dcop_yaml -> load_dcop(string), load_dcop_from_file(str path), ([path]) and ([problem file, agents file]); "
+        "dcop_yaml -> load_dcop(string), load_dcop_from_file(str path), ([path]), tuples, one-shot iterators / generators and ([problem file, agents file]) in both orders; "
         "oracle: same domains/variables/initial values, every constraint equal on every assignment (harness tables), "
         "every agent: capacity, route(a') for all pairs incl. self, hosting_cost(c) for all computations and an unknown "
         "one; a fifth of the cases are agents / routes / hosting_costs sections written by hand in the documented forms "
@@ -175,7 +175,9 @@ def check_case(case, R):
         idx = text.find("\nagents:")
         ways = [("load_dcop(str)", lambda: yamldcop.load_dcop(text)),
                 ("load_dcop_from_file(str path)", lambda: yamldcop.load_dcop_from_file(one)),
-                ("load_dcop_from_file([path])", lambda: yamldcop.load_dcop_from_file([one]))]
+                ("load_dcop_from_file([path])", lambda: yamldcop.load_dcop_from_file([one])),
+                ("load_dcop_from_file((path,))", lambda: yamldcop.load_dcop_from_file((one,))),
+                ("load_dcop_from_file(iter([path]))", lambda: yamldcop.load_dcop_from_file(iter([one])))]
         if idx > 0:
             pa, pb = os.path.join(d, "problem.yaml"), os.path.join(d, "agents.yaml")
             with open(pa, "w") as f:
@@ -183,6 +185,9 @@ def check_case(case, R):
             with open(pb, "w") as f:
                 f.write(text[idx + 1:])
             ways.append(("load_dcop_from_file([problem, agents])", lambda: yamldcop.load_dcop_from_file([pa, pb])))
+            # file names given by a one-shot iterable (generator, map, Path.glob ...)
+            ways.append(("load_dcop_from_file(generator of [problem, agents])", lambda: yamldcop.load_dcop_from_file(p for p in [pa, pb])))
+            ways.append(("load_dcop_from_file(generator of [agents, problem])", lambda: yamldcop.load_dcop_from_file(p for p in [pb, pa])))
         for how, f in ways:
             try:
                 loaded = f()
